@@ -411,7 +411,7 @@ def line_copy(case):
 
 
 def cases_copy(ctx):
-    n = 150 if ctx.thorough else (30 if ctx.escalated() else 12)
+    n = 120 if ctx.thorough else (30 if ctx.escalated() else 12)
     out = []
     for layout in layouts(ctx, n):
         md_target = ctx.rng.choice([1, 2, 4, 50])
@@ -546,7 +546,7 @@ def norm_model_rechunker(mo):
 
 
 def cases_rechunker(ctx):
-    n = 200 if ctx.thorough else (40 if ctx.escalated() else 14)
+    n = 150 if ctx.thorough else (40 if ctx.escalated() else 14)
     out = []
     modes = [False, "thread"] + (["process"] if ctx.thorough else [])
     k = 0
@@ -616,7 +616,7 @@ def line_onload(case):
 
 
 def cases_onload(ctx):
-    n = 200 if ctx.thorough else (40 if ctx.escalated() else 14)
+    n = 150 if ctx.thorough else (40 if ctx.escalated() else 14)
     out = []
     for i, layout in enumerate(layouts(ctx, n)):
         k = len(layout)
@@ -738,7 +738,7 @@ def cases_perchunk(ctx):
     out = []
     kmax = 5
     pool = [l for l in layouts(ctx, 60 if ctx.thorough else 12, kmax=kmax) if 2 <= len(l) <= kmax]
-    budget = 700 if ctx.thorough else (60 if ctx.escalated() else 26)
+    budget = 400 if ctx.thorough else (60 if ctx.escalated() else 26)
     i = 0
     for layout in pool:
         k = len(layout)
